@@ -120,7 +120,7 @@ func vMkRaft(nid uint64) *Raft {
 	st := &storage{
 		idVal:   &value{dir: vDir, ext: ".id"},
 		termVal: &value{dir: vDir, ext: ".term"},
-		snaps:   &snapshots{dir: vDir + "/snapshots", used: make(map[uint64]int)},
+		snaps:   &snapshots{dir: vDir + "/snapshots", retain: 1, used: make(map[uint64]int)},
 	}
 	st.nid = nid
 	r := &Raft{
